@@ -41,7 +41,8 @@ LenOf(t) == CASE t = "n0" -> 0 [] t = "n1" -> 1 [] t = "n3" -> 3 [] t = "n12" ->
               [] t = "n1000" -> 1000 [] t = "n5000" -> 5000
               \* a one-event stream of these lengths makes a chunk of exactly 16, 256 and 4096 bytes (its hexadecimal size gains a digit)
               [] t = "n8" -> 8 [] t = "n248" -> 248 [] t = "n4088" -> 4088 [] OTHER -> 0
-StatusOf(t) == CASE t = "s200" -> 200 [] t = "s204" -> 204 [] t = "s404" -> 404 [] t = "s304" -> 304 [] t = "s500" -> 500 [] t = "s201" -> 201 [] OTHER -> 200
+StatusOf(t) == CASE t = "s200" -> 200 [] t = "s204" -> 204 [] t = "s404" -> 404 [] t = "s304" -> 304 [] t = "s500" -> 500 [] t = "s201" -> 201
+                   [] t = "s205" -> 205 [] t = "s206" -> 206 [] t = "s301" -> 301 [] t = "s400" -> 400 [] OTHER -> 200
 
 BodyKinds == {"text", "html", "json", "raw", "stream"}     \* stream: one server-sent event of `len` bytes, chunked
 StreamBytes(len) == len + 8                                   \* "data: " + message + LF LF
